@@ -1,3 +1,4 @@
-From OV Require Import Emu.EmuCoreDefs Emu.DecodeDefs.
+From OV Require Import Emu.EmuCoreDefs Emu.DecodeDefs Emu.MarkDefs.
 From Coq Require Import ExtrOcamlBasic.
-Extraction "emucore_x.ml" run step init oh_step raw_apply emit view decode decode_full mk_chans lint_chans.
+Extraction "emucore_x.ml" run step init oh_step raw_apply emit view decode decode_full decode_all mk_chans lint_chans
+  merge_threads mark_chans rt_call rtm_init.
